@@ -31,8 +31,8 @@ OBSERVED = {
 }
 
 
-def _family(sig: str):
-    for k in OBSERVED:
+def _family(sig: str, table=None):
+    for k in (table or OBSERVED):
         if sig.startswith(k):
             return k
     return None
@@ -71,15 +71,15 @@ def main(argv=None) -> int:
         return 2
     for name, r, wall in parts:
         fam = {}
+        table = dict(OBSERVED)
+        table.update(getattr(sys.modules.get("vf.props.c17ctl"), "OBSERVED", {}) if name == "ctl" else {})
         for sig, n in sorted(r.get("signatures", {}).items()):
-            f = _family(sig) or (sig if name == "ctl" and sig in getattr(sys.modules.get("vf.props.c17ctl"), "OBSERVED", {}) else None)
+            f = _family(sig, table)
             if f is None:
                 unexpected += 1
                 print(f"UNEXPECTED {sig} x{n}", file=out, flush=True)
             else:
                 fam[f] = fam.get(f, 0) + n
-        table = dict(OBSERVED)
-        table.update(getattr(sys.modules.get("vf.props.c17ctl"), "OBSERVED", {}) if name == "ctl" else {})
         for f, n in sorted(fam.items()):
             print(f"OBSERVATION {f} x{n} -- {table.get(f, '')}", file=out, flush=True)
         mc = r.get("mc", {})
